@@ -61,7 +61,7 @@ impl Raw {
 }
 
 /// all `ESC _ G … ESC \` commands of a stream; other bytes (CSI, `ESC 7`, …) are skipped
-fn apcs(bytes: &[u8]) -> Result<Vec<Raw>, String> {
+fn apcs(bytes: &[u8], truncated: bool) -> Result<Vec<Raw>, String> {
     let mut res = Vec::new();
     let mut i = 0;
     while i < bytes.len() {
@@ -70,6 +70,10 @@ fn apcs(bytes: &[u8]) -> Result<Vec<Raw>, String> {
             let mut j = i + 2;
             loop {
                 if j + 1 >= bytes.len() {
+                    if truncated {
+                        // the writer failed inside this command: it never reached the terminal as a command
+                        return Ok(res);
+                    }
                     return Err("unterminated APC".into());
                 }
                 if bytes[j] == 0x1b {
@@ -159,7 +163,13 @@ fn finish(first: &Raw, chunks: &[Vec<u8>]) -> Result<K, String> {
 }
 
 fn kitty(bytes: &[u8]) -> Result<Vec<K>, String> {
-    let raws = apcs(bytes)?;
+    kitty_of(bytes, false)
+}
+
+/// `truncated`: the stream was cut by a failing writer; commands that did not arrive completely (an
+/// unterminated APC, a chunked transfer without its last chunk) are not commands the terminal has received
+fn kitty_of(bytes: &[u8], truncated: bool) -> Result<Vec<K>, String> {
+    let raws = apcs(bytes, truncated)?;
     let mut res = Vec::new();
     let mut pending: Option<(usize, Vec<Vec<u8>>)> = None;
     for (idx, r) in raws.iter().enumerate() {
@@ -183,7 +193,7 @@ fn kitty(bytes: &[u8]) -> Result<Vec<K>, String> {
             other => return Err(format!("unsupported action {}", other as char)),
         }
     }
-    if pending.is_some() {
+    if pending.is_some() && !truncated {
         return Err("chunked transfer not finished".into());
     }
     Ok(res)
@@ -311,11 +321,26 @@ enum EvSpec {
     /// out (0 or >= 2^32)
     RespForeign(Option<usize>, u64),
     Other,
+    /// the event, but `out` accepts only this many bytes and then fails
+    Failing(Box<EvSpec>, usize),
 }
 
 impl EvSpec {
+    fn base(&self) -> &EvSpec {
+        match self {
+            EvSpec::Failing(inner, _) => inner.base(),
+            e => e,
+        }
+    }
+    fn budget(&self) -> Option<usize> {
+        match self {
+            EvSpec::Failing(_, k) => Some(*k),
+            _ => None,
+        }
+    }
     fn to_json(&self) -> Value {
         match self {
+            EvSpec::Failing(inner, k) => json!(["w", k, inner.to_json()]),
             EvSpec::Draw(k, r, c) => json!(["d", k, r, c]),
             EvSpec::Erase(k, Some((r, c))) => json!(["e", k, r, c]),
             EvSpec::Erase(k, None) => json!(["e", k]),
@@ -331,6 +356,7 @@ impl EvSpec {
             "d" => EvSpec::Draw(n(1)?, n(2)?, n(3)?),
             "e" if a.len() == 4 => EvSpec::Erase(n(1)?, Some((n(2)?, n(3)?))),
             "e" => EvSpec::Erase(n(1)?, None),
+            "w" => EvSpec::Failing(Box::new(EvSpec::from_json(&a[2])?), n(1)?),
             "rf" => EvSpec::RespForeign(a[1].as_i64().filter(|j| *j >= 0).map(|j| j as usize), a[2].as_str()?.parse().ok()?),
             "r" => EvSpec::Resp(a[1].as_i64().filter(|j| *j >= 0).map(|j| j as usize), a[2].as_bool()?, a[3].as_bool()?),
             _ => EvSpec::Other,
@@ -392,12 +418,109 @@ struct Placed {
     pid: u64,
 }
 
+/// `out` of one event: accepts `budget` bytes (all, if `None`), then refuses
+struct Limited {
+    buf: Vec<u8>,
+    budget: Option<usize>,
+    refused: bool,
+}
+
+impl std::io::Write for Limited {
+    fn write(&mut self, data: &[u8]) -> std::io::Result<usize> {
+        match self.budget {
+            None => {
+                self.buf.extend_from_slice(data);
+                Ok(data.len())
+            }
+            Some(b) => {
+                let room = b - self.buf.len().min(b);
+                if data.is_empty() {
+                    return Ok(0);
+                }
+                if room == 0 {
+                    self.refused = true;
+                    return Err(std::io::Error::new(std::io::ErrorKind::BrokenPipe, "writer full"));
+                }
+                let n = room.min(data.len());
+                self.buf.extend_from_slice(&data[..n]);
+                Ok(n)
+            }
+        }
+    }
+    fn flush(&mut self) -> std::io::Result<()> {
+        Ok(())
+    }
+}
+
 /// what happened for one event
 struct StepOut {
+    /// the handler returned `Err`
+    err: bool,
+    /// the writer refused bytes: what arrived is a cut stream
+    truncated: bool,
     bytes: Vec<u8>,
     handled: Option<bool>,
     /// resolved response ids (id, placement, error) for `Resp`
     resp: Option<(u64, Option<u64>, bool)>,
+}
+
+/// run a history on a fresh `KittyImageHandler`
+fn run_impl(hist: &History, imgs: &[Image]) -> Result<Vec<StepOut>, &'static str> {
+    // ---- run the implementation -------------------------------------------------------------
+    let mut handler = if hist.quiet { KittyImageHandler::new().quiet() } else { KittyImageHandler::new() };
+    let mut steps: Vec<StepOut> = Vec::new();
+    // ids of the put of each draw event, as observed (for responses)
+    let mut observed: Vec<Option<(u64, u64)>> = Vec::new();
+    for ev in hist.evs.iter() {
+        let mut wr = Limited { buf: Vec::new(), budget: ev.budget(), refused: false };
+        let ev = ev.base();
+        let mut resp = None;
+        // outer Err: panic; inner Err: the handler returned an error
+        let r: Result<Result<Option<bool>, ()>, ()> = match ev {
+            EvSpec::Draw(k, row, col) => guarded(|| {
+                handler.draw(&mut wr, &imgs[*k], Position { row: *row, col: *col }).map(|_| None).map_err(|_| ())
+            }),
+            EvSpec::Erase(k, pos) => guarded(|| {
+                handler.erase(&mut wr, &imgs[*k], pos.map(|(row, col)| Position { row, col })).map(|_| None).map_err(|_| ())
+            }),
+            EvSpec::Resp(j, with_placement, err) => {
+                let (id, pid) = j.and_then(|j| observed.get(j).cloned().flatten()).unwrap_or((777, 5));
+                let placement = if *with_placement { Some(pid) } else { None };
+                resp = Some((id, placement, *err));
+                let event = TerminalEvent::KittyImage {
+                    id,
+                    placement,
+                    error: if *err { Some("ENOENT:gone".to_string()) } else { None },
+                };
+                guarded(|| handler.handle(&mut wr, &event).map(Some).map_err(|_| ()))
+            }
+            EvSpec::RespForeign(j, placement) => {
+                let (id, _) = j.and_then(|j| observed.get(j).cloned().flatten()).unwrap_or((777, 5));
+                resp = Some((id, Some(*placement), true));
+                let event = TerminalEvent::KittyImage { id, placement: Some(*placement), error: Some("ENOENT:gone".to_string()) };
+                guarded(|| handler.handle(&mut wr, &event).map(Some).map_err(|_| ()))
+            }
+            EvSpec::Other => guarded(|| handler.handle(&mut wr, &TerminalEvent::Wake).map(Some).map_err(|_| ())),
+            EvSpec::Failing(..) => unreachable!(),
+        };
+        let (handled, err) = match r {
+            Ok(Ok(h)) => (h, false),
+            Ok(Err(())) if wr.refused => (None, true),
+            Ok(Err(())) => return Err("handler returned an error although the writer accepted everything"),
+            Err(()) => return Err("handler panicked"),
+        };
+        observed.push(match (ev, kitty_of(&wr.buf, wr.refused)) {
+            (EvSpec::Draw(..), Ok(cmds)) => cmds.iter().rev().find_map(|c| match c {
+                K::Put { id, pid } => Some((*id, *pid)),
+                K::Transmit { display: true, id, pid, .. } => Some((*id, *pid)),
+                _ => None,
+            }),
+            _ => None,
+        });
+        steps.push(StepOut { err, truncated: wr.refused, bytes: wr.buf, handled, resp });
+    }
+
+    Ok(steps)
 }
 
 struct Runner<'a> {
@@ -483,65 +606,17 @@ impl<'a> Runner<'a> {
         }
 
         // ---- run the implementation -------------------------------------------------------------
-        let mut handler = if hist.quiet { KittyImageHandler::new().quiet() } else { KittyImageHandler::new() };
-        let mut steps: Vec<StepOut> = Vec::new();
-        // ids of the put of each draw event, as observed (for responses)
-        let mut observed: Vec<Option<(u64, u64)>> = Vec::new();
-        for ev in hist.evs.iter() {
-            let mut buf: Vec<u8> = Vec::new();
-            let mut resp = None;
-            let r: Result<Option<bool>, ()> = match ev {
-                EvSpec::Draw(k, row, col) => guarded(|| {
-                    handler.draw(&mut buf, &imgs[*k], Position { row: *row, col: *col }).map(|_| None).map_err(|_| ())
-                })
-                .and_then(|x| x),
-                EvSpec::Erase(k, pos) => guarded(|| {
-                    handler
-                        .erase(&mut buf, &imgs[*k], pos.map(|(row, col)| Position { row, col }))
-                        .map(|_| None)
-                        .map_err(|_| ())
-                })
-                .and_then(|x| x),
-                EvSpec::Resp(j, with_placement, err) => {
-                    let (id, pid) = j.and_then(|j| observed.get(j).cloned().flatten()).unwrap_or((777, 5));
-                    let placement = if *with_placement { Some(pid) } else { None };
-                    resp = Some((id, placement, *err));
-                    let event = TerminalEvent::KittyImage {
-                        id,
-                        placement,
-                        error: if *err { Some("ENOENT:gone".to_string()) } else { None },
-                    };
-                    guarded(|| handler.handle(&mut buf, &event).map(Some).map_err(|_| ())).and_then(|x| x)
-                }
-                EvSpec::RespForeign(j, placement) => {
-                    let (id, _) = j.and_then(|j| observed.get(j).cloned().flatten()).unwrap_or((777, 5));
-                    resp = Some((id, Some(*placement), true));
-                    let event = TerminalEvent::KittyImage { id, placement: Some(*placement), error: Some("ENOENT:gone".to_string()) };
-                    guarded(|| handler.handle(&mut buf, &event).map(Some).map_err(|_| ())).and_then(|x| x)
-                }
-                EvSpec::Other => {
-                    guarded(|| handler.handle(&mut buf, &TerminalEvent::Wake).map(Some).map_err(|_| ())).and_then(|x| x)
-                }
-            };
-            let handled = match r {
-                Ok(h) => h,
-                Err(()) => {
-                    self.out.fail("handler panicked or returned an error", input.clone(), json!("ok"), json!("panic/err"));
-                    return false;
-                }
-            };
-            observed.push(match (ev, kitty(&buf)) {
-                (EvSpec::Draw(..), Ok(cmds)) => cmds.iter().rev().find_map(|c| match c {
-                    K::Put { id, pid } => Some((*id, *pid)),
-                    _ => None,
-                }),
-                _ => None,
-            });
-            steps.push(StepOut { bytes: buf, handled, resp });
-        }
+        let steps = match run_impl(hist, &imgs) {
+            Ok(s) => s,
+            Err(what) => {
+                self.out.fail(what, input.clone(), json!("ok"), json!("panic/err"));
+                return false;
+            }
+        };
 
         // ---- correspondence line -----------------------------------------------------------------
-        let mut req = format!("c11 model {}", if hist.quiet { "q1" } else { "q0" });
+        let failing = hist.evs.iter().any(|e| e.budget().is_some());
+        let mut req = format!("c11 {} {}", if failing { "modelw" } else { "model" }, if hist.quiet { "q1" } else { "q0" });
         for (img, hash) in imgs.iter().zip(hashes.iter()) {
             let s = img.shape();
             let data: Vec<u8> = img.data().iter().flat_map(|c| c.to_rgba()).collect();
@@ -551,7 +626,12 @@ impl<'a> Runner<'a> {
             ));
         }
         for (ev, st) in hist.evs.iter().zip(steps.iter()) {
+            if let Some(b) = ev.budget() {
+                req.push_str(&format!(" evw {b}"));
+            }
+            let ev = ev.base();
             match ev {
+                EvSpec::Failing(..) => unreachable!(),
                 EvSpec::Draw(k, r, c) => req.push_str(&format!(" ev d {k} {r} {c}")),
                 EvSpec::Erase(k, Some((r, c))) => req.push_str(&format!(" ev e {k} {r} {c}")),
                 EvSpec::Erase(k, None) => req.push_str(&format!(" ev e {k} - -")),
@@ -568,15 +648,16 @@ impl<'a> Runner<'a> {
         }
         let answer: Vec<String> = steps
             .iter()
-            .map(|st| match st.handled {
-                None => hex(&st.bytes),
-                Some(h) => format!("{}:{}", hex(&st.bytes), if h { "t" } else { "f" }),
+            .map(|st| match (st.err, st.handled) {
+                (true, _) => format!("{}!", hex(&st.bytes)),
+                (false, None) => hex(&st.bytes),
+                (false, Some(h)) => format!("{}:{}", hex(&st.bytes), if h { "t" } else { "f" }),
             })
             .collect();
         self.out.corr(&req, &answer.join(" "));
 
         // ---- Rust oracle ------------------------------------------------------------------------
-        let uses_corner = hist.evs.iter().any(|e| match e {
+        let uses_corner = hist.evs.iter().any(|e| match e.base() {
             EvSpec::Draw(_, r, c) => (*r, *c) == CORNER,
             EvSpec::Erase(_, Some(p)) => *p == CORNER,
             _ => false,
@@ -604,7 +685,10 @@ impl<'a> Runner<'a> {
             if !ok {
                 break 'events;
             }
-            let cmds = match kitty(&st.bytes) {
+            let ev = ev.base();
+            // after a write error only the commands that arrived completely count: an image is on the
+            // terminal only when its whole transfer (every chunk, each a complete APC) got there
+            let cmds = match kitty_of(&st.bytes, st.truncated) {
                 Ok(c) => c,
                 Err(e) => {
                     fail(self.out, "output is not a sequence of valid kitty graphics commands", k, json!("well-formed APC G commands"), json!(e));
@@ -623,6 +707,10 @@ impl<'a> Runner<'a> {
                     K::Transmit { display, id, pid, f, s, v, o, data, chunks } => {
                         if *id == 0 {
                             fail(self.out, "image id 0 (= unspecified) used for a transmission", k, json!("non-zero id"), json!(0));
+                            ok = false;
+                        }
+                        if *id > u32::MAX as u64 {
+                            fail(self.out, "image id exceeds the protocol's 32-bit range", k, json!("id <= 4294967295"), json!(id));
                             ok = false;
                         }
                         if *f != 32 || o.is_some() {
@@ -670,12 +758,21 @@ impl<'a> Runner<'a> {
                             fail(self.out, "image id or placement id 0 (= unspecified) in a placement", k, json!("non-zero ids"), json!([id, pid]));
                             ok = false;
                         }
+                        if *id > u32::MAX as u64 || *pid > u32::MAX as u64 {
+                            fail(self.out, "image id or placement id exceeds the protocol's 32-bit range", k, json!("<= 4294967295"), json!([id, pid]));
+                            ok = false;
+                        }
                         if !live.contains_key(id) {
                             fail(self.out, "placement refers to an image that is not transmitted", k, json!("a=p only for transmitted ids"), json!(id));
                             ok = false;
                         }
                     }
-                    Fx::Del { .. } => {}
+                    Fx::Del { id, pid } => {
+                        if *id > u32::MAX as u64 || *pid > u32::MAX as u64 {
+                            fail(self.out, "image id or placement id exceeds the protocol's 32-bit range", k, json!("<= 4294967295"), json!([id, pid]));
+                            ok = false;
+                        }
+                    }
                 }
             }
             if !ok {
@@ -700,6 +797,14 @@ impl<'a> Runner<'a> {
                         continue;
                     }
                     let Some((id, pid)) = draw_shape(&fx) else {
+                        if st.truncated {
+                            // cut by the write error: nothing, or the complete transmission of this very image
+                            match fx.as_slice() {
+                                [] => continue,
+                                [Fx::Tx { s, v, data, .. }] if (*s, *v) == (ct.0, ct.1) && *data == ct.2 => continue,
+                                _ => {}
+                            }
+                        }
                         fail(self.out, "draw is not (transmit of this image,) one placement", k, json!("[T] P"), json!(cmds.len()));
                         ok = false;
                         break 'events;
@@ -727,6 +832,9 @@ impl<'a> Runner<'a> {
                 EvSpec::Erase(ki, pos) => {
                     let ct = &contents[*ki];
                     let dels: Vec<(u64, u64)> = fx.iter().filter_map(|f| match f { Fx::Del { id, pid } => Some((*id, *pid)), _ => None }).collect();
+                    if st.truncated && fx.is_empty() {
+                        continue;
+                    }
                     if dels.is_empty() || dels.len() != fx.len() {
                         fail(self.out, "erase is not made of deletions only", k, json!("a=d"), json!(cmds.len()));
                         ok = false;
@@ -765,6 +873,9 @@ impl<'a> Runner<'a> {
                     // (same image, same placement id, where that placement was made) and is tracked from now on
                     if let (Some((rid, Some(rp), true)), false) = (st.resp, fx.is_empty()) {
                         let Some((id, pid)) = draw_shape(&fx) else {
+                            if st.truncated && matches!(fx.as_slice(), [Fx::Tx { .. }]) {
+                                continue; // the write error came after the transmission and before the placement
+                            }
                             fail(self.out, "re-draw after an error response is not (transmit,) one placement", k, json!("[T] P"), json!(cmds.len()));
                             ok = false;
                             break 'events;
@@ -791,15 +902,17 @@ impl<'a> Runner<'a> {
                     }
                 }
                 EvSpec::Other => {}
+                EvSpec::Failing(..) => unreachable!(),
             }
         }
 
         // ---- Lean oracles -----------------------------------------------------------------------
-        if ok && lean_oracle && !uses_corner && !id_collision {
+        if ok && lean_oracle && !uses_corner && !id_collision && !failing {
             let mut req = String::from("c11 monitor");
             for (ev, st) in hist.evs.iter().zip(steps.iter()) {
                 let b = hex(&st.bytes);
                 match ev {
+                    EvSpec::Failing(..) => {}
                     EvSpec::Draw(k, r, c) => {
                         let ct = &contents[*k];
                         req.push_str(&format!(" D {} {} {} {r} {c} {b}", ct.0, ct.1, hex(&ct.2)));
@@ -829,7 +942,7 @@ impl<'a> Runner<'a> {
 
         // ---- statistics ---------------------------------------------------------------------------
         let big = contents.iter().any(|c| c.2.len() > 3072);
-        let nontrivial = hist.evs.iter().any(|e| matches!(e, EvSpec::Draw(..))) && contents.iter().any(|c| !c.2.is_empty());
+        let nontrivial = hist.evs.iter().any(|e| matches!(e.base(), EvSpec::Draw(..))) && contents.iter().any(|c| !c.2.is_empty());
         let key = format!("{}|{}", req_key(&steps), hist.evs.len());
         self.out.case(&key, nontrivial);
         self.out.hist(&format!("events:{}", match hist.evs.len() { 0..=2 => "1-2", 3..=6 => "3-6", 7..=49 => "7-49", _ => "50+" }));
@@ -842,8 +955,14 @@ impl<'a> Runner<'a> {
         if contents.iter().any(|c| c.2.is_empty()) {
             self.out.hist("has-empty-image");
         }
-        if hist.evs.iter().any(|e| matches!(e, EvSpec::RespForeign(..))) {
+        if hist.evs.iter().any(|e| matches!(e.base(), EvSpec::RespForeign(..))) {
             self.out.hist("has-foreign-placement-response");
+        }
+        if failing {
+            self.out.hist("has-failing-writer");
+            if steps.iter().any(|st| st.err) {
+                self.out.hist("has-write-error");
+            }
         }
         if hist.imgs.len() >= 10 {
             self.out.hist("has-10+-images");
@@ -854,7 +973,7 @@ impl<'a> Runner<'a> {
         if (0..contents.len()).any(|i| (0..i).any(|j| contents[i] == contents[j] && !contents[i].2.is_empty() && (hist.imgs[i].ph, hist.imgs[i].pw, hist.imgs[i].transpose, hist.imgs[i].crop) != (hist.imgs[j].ph, hist.imgs[j].pw, hist.imgs[j].transpose, hist.imgs[j].crop))) {
             self.out.hist("has-equal-content-different-layout");
         }
-        if hist.evs.iter().any(|e| matches!(e, EvSpec::Resp(_, _, true))) {
+        if hist.evs.iter().any(|e| matches!(e.base(), EvSpec::Resp(_, _, true))) {
             self.out.hist("has-error-response");
         }
         ok
@@ -1077,6 +1196,106 @@ fn gen_many_chunk_history(rng: &mut Rng) -> History {
     History { quiet: false, imgs: vec![img, small], evs }
 }
 
+/// byte counts at which a failing writer is interesting for this output: nothing at all, one byte, inside
+/// the first header, one byte before / exactly at / one byte after the end of every command, inside every
+/// payload, all but the last byte, everything (no failure)
+fn cut_points(bytes: &[u8]) -> Vec<usize> {
+    let n = bytes.len();
+    let mut v = vec![0, 1, 7, n.saturating_sub(1), n.saturating_sub(2), n];
+    let mut last = 0;
+    for i in 1..n {
+        if bytes[i - 1] == 0x1b && bytes[i] == b'\\' {
+            let end = i + 1;
+            v.extend([end - 2, end - 1, end, end + 1, end + 3, (last + end) / 2]);
+            last = end;
+        }
+    }
+    v.retain(|k| *k <= n);
+    v.sort();
+    v.dedup();
+    v
+}
+
+fn dry_run(hist: &History) -> Option<Vec<Vec<u8>>> {
+    let imgs: Vec<Image> = guarded(|| hist.imgs.iter().map(|s| s.build()).collect::<Vec<_>>()).ok()?;
+    Some(run_impl(hist, &imgs).ok()?.into_iter().map(|s| s.bytes).collect())
+}
+
+/// give one or two events of `base` a writer that fails somewhere interesting, then draw / erase the images
+/// concerned again through working writers
+fn with_failures(rng: &mut Rng, mut base: History) -> History {
+    let Some(outs) = dry_run(&base) else { return base };
+    let cands: Vec<usize> = (0..outs.len()).filter(|i| !outs[*i].is_empty()).collect();
+    if cands.is_empty() {
+        return base;
+    }
+    let mut follow = Vec::new();
+    for _ in 0..(1 + rng.below(2)) {
+        let i = *rng.pick(&cands);
+        if base.evs[i].budget().is_some() {
+            continue;
+        }
+        let cuts = cut_points(&outs[i]);
+        let k = if rng.chance(1, 5) { rng.below(outs[i].len() as u64 + 1) as usize } else { *rng.pick(&cuts) };
+        let ev = base.evs[i].clone();
+        match &ev {
+            EvSpec::Draw(img, r, c) | EvSpec::Erase(img, Some((r, c))) => {
+                follow.extend([EvSpec::Draw(*img, *r, *c), EvSpec::Draw(*img, *c, *r), EvSpec::Erase(*img, Some((*r, *c)))]);
+            }
+            EvSpec::Resp(Some(j), ..) | EvSpec::RespForeign(Some(j), _) => {
+                if let EvSpec::Draw(img, r, c) = base.evs[*j].base() {
+                    follow.extend([EvSpec::Draw(*img, *r, *c), EvSpec::Erase(*img, None)]);
+                }
+            }
+            _ => {}
+        }
+        base.evs[i] = EvSpec::Failing(Box::new(ev), k);
+    }
+    base.evs.extend(follow);
+    base
+}
+
+/// every possible failure point of the draw, the erase and the re-draw of a 1x1 image; the interesting ones
+/// of a three-chunk image
+fn failure_corpus() -> Vec<History> {
+    let mut v = Vec::new();
+    let one = solid(1, 1, [9, 8, 7, 6]);
+    let d = EvSpec::Draw(0, 2, 5);
+    let e = EvSpec::Erase(0, Some((2, 5)));
+    let r = EvSpec::Resp(Some(0), true, true);
+    let fail = |ev: &EvSpec, k: usize| EvSpec::Failing(Box::new(ev.clone()), k);
+    let len = |evs: Vec<EvSpec>, i: usize, img: &ImgSpec| -> usize {
+        dry_run(&History { quiet: false, imgs: vec![img.clone()], evs }).map(|o| o[i].len()).unwrap_or(0)
+    };
+    let l_draw = len(vec![d.clone()], 0, &one);
+    for k in 0..=l_draw {
+        v.push(History { quiet: false, imgs: vec![one.clone()], evs: vec![fail(&d, k), d.clone(), e.clone(), d.clone()] });
+    }
+    let l_erase = len(vec![d.clone(), e.clone()], 1, &one);
+    for k in 0..=l_erase {
+        v.push(History { quiet: false, imgs: vec![one.clone()], evs: vec![d.clone(), fail(&e, k), e.clone(), d.clone()] });
+    }
+    let l_redraw = len(vec![d.clone(), r.clone()], 1, &one);
+    for k in 0..=l_redraw {
+        v.push(History { quiet: k % 2 == 1, imgs: vec![one.clone()], evs: vec![d.clone(), fail(&r, k), d.clone(), e.clone(), r.clone(), d.clone()] });
+    }
+    // second draw (placement only) cut
+    let l_put = len(vec![d.clone(), d.clone()], 1, &one);
+    for k in [0, 1, l_put / 2, l_put - 1] {
+        v.push(History { quiet: false, imgs: vec![one.clone()], evs: vec![d.clone(), fail(&d, k), d.clone(), e.clone()] });
+    }
+    let big = gradient(40, 40);
+    if let Some(outs) = dry_run(&History { quiet: false, imgs: vec![big.clone()], evs: vec![d.clone(), r.clone()] }) {
+        for k in cut_points(&outs[0]) {
+            v.push(History { quiet: false, imgs: vec![big.clone()], evs: vec![fail(&d, k), d.clone(), e.clone()] });
+        }
+        for k in cut_points(&outs[1]).into_iter().step_by(2) {
+            v.push(History { quiet: false, imgs: vec![big.clone()], evs: vec![d.clone(), fail(&r, k), d.clone(), e.clone()] });
+        }
+    }
+    v
+}
+
 const POS_POOL: [(usize, usize); 9] =
     [(0, 0), (0, 65535), (65535, 0), (3, 7), (7, 3), (65534, 65535), (65535, 65534), (1, 0), (0, 1)];
 
@@ -1159,9 +1378,62 @@ fn gradient(ph: usize, pw: usize) -> ImgSpec {
     ImgSpec { ph, pw, data, transpose: false, crop: None, via: 0 }
 }
 
+/// A 1x2 image whose `Surface::hash` has the given low 32 bits: edge values of the id arithmetic (all ones:
+/// the largest residue; see also the 1x1 witness of id 0). Constructed on the assumption that the hash is
+/// 64-bit FNV-1a over height, width and length-prefixed pixels (its low 32 bits are then a 32-bit recurrence:
+/// meet in the middle over the four bytes of the last pixel), and VERIFIED through the public `Surface::hash`;
+/// if the hash is computed differently nothing is returned.
+fn image_with_hash_low32(target: u32) -> Option<ImgSpec> {
+    const P: u32 = 0x1b3; // low 32 bits of the FNV prime 0x100000001b3
+    let step = |h: u32, b: u8| (h ^ b as u32).wrapping_mul(P);
+    // inverse of P modulo 2^32 (Newton)
+    let mut inv: u32 = 1;
+    for _ in 0..6 {
+        inv = inv.wrapping_mul(2u32.wrapping_sub(P.wrapping_mul(inv)));
+    }
+    for p0 in 0u32..64 {
+        let first = [p0 as u8, 17, 34, 51];
+        let mut h: u32 = 0x84222325; // low 32 bits of the offset basis
+        for b in 1u64.to_le_bytes().iter().chain(2u64.to_le_bytes().iter()) {
+            h = step(h, *b);
+        }
+        for b in 4u64.to_le_bytes().iter().chain(first.iter()).chain(4u64.to_le_bytes().iter()) {
+            h = step(h, *b);
+        }
+        let mut fwd: std::collections::HashMap<u32, (u8, u8)> = std::collections::HashMap::new();
+        for b0 in 0..=255u8 {
+            for b1 in 0..=255u8 {
+                fwd.insert(step(step(h, b0), b1), (b0, b1));
+            }
+        }
+        for b3 in 0..=255u8 {
+            for b2 in 0..=255u8 {
+                let before3 = target.wrapping_mul(inv) ^ b3 as u32;
+                let before2 = before3.wrapping_mul(inv) ^ b2 as u32;
+                if let Some((b0, b1)) = fwd.get(&before2) {
+                    let mut data = first.to_vec();
+                    data.extend_from_slice(&[*b0, *b1, b2, b3]);
+                    let spec = ImgSpec { ph: 1, pw: 2, data, transpose: false, crop: None, via: 1 };
+                    if (Surface::hash(&spec.build()) & 0xffff_ffff) as u32 == target {
+                        return Some(spec);
+                    }
+                    return None; // the hash is not what the construction assumes
+                }
+            }
+        }
+    }
+    None
+}
+
 /// white-box cases, run whatever the seed
 fn corpus() -> Vec<History> {
     let mut v = Vec::new();
+    // edge residues of the content hash: low 32 bits all ones / all zero / 2^32-2
+    for t in [0xffff_ffffu32, 0, 0xffff_fffe] {
+        if let Some(img) = image_with_hash_low32(t) {
+            v.push(History { quiet: false, imgs: vec![img], evs: vec![EvSpec::Draw(0, 2, 5), EvSpec::Draw(0, 5, 2), EvSpec::Erase(0, Some((2, 5))), EvSpec::Resp(Some(0), true, true)] });
+        }
+    }
     let witness = solid(1, 1, [178, 12, 127, 104]); // image id 0 on the pinned tree
     let d = |k, r, c| EvSpec::Draw(k, r, c);
     let e = |k, r, c| EvSpec::Erase(k, Some((r, c)));
@@ -1332,7 +1604,7 @@ fn main() {
         } else if input.get("pos").is_some() {
             corner_case(&mut run);
         } else {
-            for h in corpus() {
+            for h in corpus().into_iter().chain(failure_corpus()) {
                 run.history(&h, true);
             }
         }
@@ -1344,6 +1616,9 @@ fn main() {
     {
         let mut run = Runner { out: &mut out, id_collisions: Vec::new() };
         for h in corpus() {
+            run.history(&h, true);
+        }
+        for h in failure_corpus() {
             run.history(&h, true);
         }
         corner_case(&mut run);
@@ -1359,6 +1634,7 @@ fn main() {
             } else {
                 gen_history(&mut rng, max)
             };
+            let h = if i % 12 == 5 { with_failures(&mut rng, h) } else { h };
             run.history(&h, true);
             if i % 211 == 0 {
                 let s = json!({"images": h.imgs.iter().map(|i| format!("{}x{}{}{}", i.ph, i.pw, if i.transpose { " transposed" } else { "" }, i.crop.map(|c| format!(" crop {:?}", c)).unwrap_or_default())).collect::<Vec<_>>(),
@@ -1377,5 +1653,5 @@ fn main() {
         run.out.extra("image_id_collisions_excused", json!(n_coll.min(2)));
     }
     id_zero_search(&mut out, cfg.thorough);
-    out.finish("histories of draw / erase / terminal-response (own, made-up and foreign placement ids >= 2^32 or 0) / other events on one KittyImageHandler; one history in 10 draws 2-4 different memory layouts of one pixel content (owned copy, window of a larger parent, stored transposed, transposed twice), one in 40 has 10-50 tiny images and 50-130 events, thorough: one in 200 has an image of 4+ chunks (thin 1-3 x 2400-3600 or 49-64 squared); the rest over 1-3 images (0x0 .. 40x40, random / constant / gradient pixels, plain, cropped, transposed, transposed+cropped, built by Image::new(view) or Image::from(..).crop(..)); positions from a recurring pool incl. (0,0), (0,65535), (65535,0), swapped pairs, random below 65536; non-trivial = at least one draw of a non-empty image; distinct by the bytes the implementation wrote; plus the corner case (65535,65535) and a search over 1x1 images for image id 0");
+    out.finish("(one history in 12 additionally gives one or two of its events a writer that fails after k bytes — k = 0, 1, inside a header, around the end of every command, inside every payload, all but the last byte — and then draws / erases the images concerned again through working writers; every k for the draw, erase and re-draw of a 1x1 image and the command boundaries of a 3-chunk image are run on every seed) histories of draw / erase / terminal-response (own, made-up and foreign placement ids >= 2^32 or 0) / other events on one KittyImageHandler; one history in 10 draws 2-4 different memory layouts of one pixel content (owned copy, window of a larger parent, stored transposed, transposed twice), one in 40 has 10-50 tiny images and 50-130 events, thorough: one in 200 has an image of 4+ chunks (thin 1-3 x 2400-3600 or 49-64 squared); the rest over 1-3 images (0x0 .. 40x40, random / constant / gradient pixels, plain, cropped, transposed, transposed+cropped, built by Image::new(view) or Image::from(..).crop(..)); positions from a recurring pool incl. (0,0), (0,65535), (65535,0), swapped pairs, random below 65536; non-trivial = at least one draw of a non-empty image; distinct by the bytes the implementation wrote; plus the corner case (65535,65535) and a search over 1x1 images for image id 0");
 }
